@@ -18,11 +18,19 @@ Sources (all from the scratch build = $VERIF_REPO's working tree, with the build
        top -= <non constant>                  ITopDown      (amount assumed >= 0: listed as assumption)
        top = sexp_context_top(ctx)            IReload
        top = <anything else>                  ITopUnknown
+       stack[top + k] = e                     <items of e>; IStore k      (the calls inside e run BEFORE the store)
+       stack[top++] = e  (_PUSH)              <items of e>; IStore 0; ITop 1
        f(...) with f in the may-allocate set  ICall "f"
-       if / ?: / && / ||  / switch            IIf a b       (either branch)
-       for / while / do                       ILoop body    (any number of iterations)
+       if / ?: / && / ||                      IIf a b       (either branch)
+       nested switch                          IBlock [IIf ...]  (a break inside leaves the block)
+       for / while / do                       ILoop body    (any number of iterations; break/continue = IBreak)
        break (of the segment) / goto / return IStop
-   A segment starts in the state "nothing known" (the previous opcode may have moved top without publishing).
+   A segment starts in the state "relation of local and published top unknown (the previous opcode may have moved top
+   without publishing); every slot below the local top and below the published top has been written" and must
+   re-establish the second half at every exit.
+   Two-sided check (round 3): at every allocating call  local top <= published top  (no LOST root: the marker scans
+   every live operand)  and  published top <= written end  (no STALE root: the marker scans no slot that this opcode
+   has not written; the sexp_raise defect fixed in e9f05cd).
    Fails closed: an AST node kind outside the handled set raises.
 The verified checker `seg_ok` (coq/C02/VmTop.v, theorem vm_top_checker_sound) is run by vm_compute on the
 generated table: obligation `alloc_ops_publish_top` in coq/C02/VmTopCheck.v.
@@ -162,11 +170,74 @@ def top_plus(n):
     return None
 
 
+def below_top(n):
+    """n = top - v1 - c1 - v2 ... (only subtractions of integer constants and of variables): the sum of the constants
+    (negated), else None"""
+    n = strip(n)
+    if is_var(n, "top"):
+        return 0
+    if n.get("kind") == "BinaryOperator" and n.get("opcode") in ("-", "+"):
+        a, b = n["inner"]
+        base = below_top(a)
+        if base is None:
+            return None
+        c = int_const(b)
+        if c is not None:
+            return base - c if n["opcode"] == "-" else base + c
+        if n["opcode"] == "-" and strip(b).get("kind") == "DeclRefExpr":
+            return base
+    return None
+
+
 class Walker:
     def __init__(self, alloc, defined):
         self.alloc, self.defined = alloc, defined
         self.assumptions = []
         self.unknown_callees = set()
+        self.nest = []           # per enclosing loop: number of nested switches entered inside it
+        self.preserved = set()   # locals of sexp_apply registered with sexp_gc_preserve
+
+    def stable_value(self, b):
+        """the stored value needs no root of its own: an immediate built from an integer ((sexp)(integer expression):
+        SEXP_ONE, sexp_make_fixnum(..), SEXP_VOID ...) or the value of a local that sexp_apply registers with sexp_gc_preserve"""
+        n = b
+        while n.get("kind") in ("ParenExpr", "ImplicitCastExpr", "ConstantExpr") and n.get("inner"):
+            n = n["inner"][-1]
+        if n.get("kind") == "CStyleCastExpr" and n.get("inner"):
+            t = n["inner"][-1].get("type", {})
+            q = (t.get("desugaredQualType") or t.get("qualType") or "").replace("const ", "").strip()
+            if q in ("long", "unsigned long", "int", "unsigned int", "char", "unsigned char", "long long", "unsigned long long"):
+                return True
+            return self.stable_value(n["inner"][-1])
+        if n.get("kind") == "DeclRefExpr" and n.get("referencedDecl", {}).get("name") in self.preserved:
+            return True
+        return False
+
+    def stack_store(self, a, b=None):
+        """a = left side of an assignment.  stack[top + k] -> [store k]; stack[top++] -> [store 0; top 1];
+        stack[--top] -> [top -1; store 0]; any other subscript of `stack` that mentions top -> no information
+        (a store that is not recorded can only make the check stricter); else None"""
+        a = strip(a)
+        if a.get("kind") != "ArraySubscriptExpr":
+            return None
+        base, idx = a["inner"]
+        if not is_var(base, "stack"):
+            return None
+        stb = 1 if (b is not None and self.stable_value(b)) else 0
+        k = top_plus(idx)
+        if k is not None:
+            return [("store", k, stb)]
+        si = strip(idx)
+        if si.get("kind") == "UnaryOperator" and si.get("opcode") in ("++", "--") and is_var(si["inner"][0], "top"):
+            dlt = 1 if si["opcode"] == "++" else -1
+            return [("store", 0, stb), ("top", dlt)] if si.get("isPostfix") else [("top", dlt), ("store", 0, stb)]
+        bt = below_top(idx)
+        if bt is not None and bt <= -1:
+            self.assumptions.append("in stack[top - <variable> - c] the variable part is non-negative (the slot lies below the local top)")
+            return self.expr(idx) + [("store", -1, stb)]
+        if mentions(idx, lambda x: x.get("kind") == "DeclRefExpr" and x.get("referencedDecl", {}).get("name") == "top") and not stb:
+            raise Unsupported("store of a non-immediate value into stack[<expression of top that is not top + constant>]")
+        return self.expr(idx)
 
     # ---- expressions: returns list of items (evaluation order: operands, then the operation)
     def expr(self, n):
@@ -191,6 +262,9 @@ class Walker:
                     if is_ctx_top(b):
                         return its + [("reload",)]
                     return its + [("topunknown",)]
+                st = self.stack_store(a, b)
+                if st is not None:
+                    return self.expr(b) + st
                 return self.expr(b) + self.expr(a)
             if op in ("+=", "-=") and is_var(a, "top"):
                 its = self.expr(b)
@@ -263,19 +337,29 @@ class Walker:
         if k == "ForStmt":
             init, _cv, cond, inc, body = inner
             its = self.stmt(init, breaks_stop) if init.get("kind") else []
+            self.nest.append(0)
             loop = (self.expr(cond) if cond.get("kind") else []) + self.stmt(body, False) + (self.expr(inc) if inc.get("kind") else [])
+            self.nest.pop()
             return its + [("loop", loop)]
         if k == "WhileStmt":
             cond, body = inner[0], inner[-1]
-            return [("loop", self.expr(cond) + self.stmt(body, False))]
+            self.nest.append(0)
+            loop = self.expr(cond) + self.stmt(body, False)
+            self.nest.pop()
+            return [("loop", loop)]
         if k == "DoStmt":
             body, cond = inner
-            return [("loop", self.stmt(body, False) + self.expr(cond))]
+            self.nest.append(0)
+            loop = self.stmt(body, False) + self.expr(cond)
+            self.nest.pop()
+            return [("loop", loop)]
         if k == "SwitchStmt":
             # a nested switch: every case is an alternative entered from the state before the switch; fall-through is
             # covered by also offering every suffix (cases in order) as an alternative
             cond, body = inner[0], inner[-1]
             alts, cur = [], None
+            if self.nest:
+                self.nest[-1] += 1
             for c in body.get("inner", []):
                 while c.get("kind") in ("CaseStmt", "DefaultStmt"):
                     cur = []
@@ -286,11 +370,13 @@ class Walker:
                 piece = self.stmt(c, False)
                 for a in alts:
                     a += piece                   # fall-through: earlier cases run this one's code too (over-approximation)
+            if self.nest:
+                self.nest[-1] -= 1
             its = self.expr(cond)
             node = []
             for a in reversed(alts):
                 node = [("if", a, node)]
-            return its + node
+            return its + [("block", node)]
         if k in ("CaseStmt", "DefaultStmt"):
             raise Unsupported("case label nested inside a statement of the opcode switch")
         if k == "LabelStmt":
@@ -298,6 +384,8 @@ class Walker:
         if k == "BreakStmt":
             return [("stop",)] if breaks_stop else [("loopbreak",)]
         if k == "ContinueStmt":
+            if self.nest and self.nest[-1] > 0:
+                raise Unsupported("continue inside a nested switch of a loop")
             return [("loopbreak",)]
         if k in ("GotoStmt", "ReturnStmt"):
             its = []
@@ -336,6 +424,19 @@ def segments(fn, alloc, defined):
     if body.get("kind") != "CompoundStmt":
         raise Unsupported("switch body is not a compound statement")
     w = Walker(alloc, defined)
+
+    def preserved(n):
+        # sexp_gc_preserve(ctx, x, y) expands to  (y).var = &(x);  ...
+        if n.get("kind") == "BinaryOperator" and n.get("opcode") == "=":
+            a, b = n["inner"]
+            a, b = strip(a), strip(b)
+            if a.get("kind") == "MemberExpr" and a.get("name") == "var" and b.get("kind") == "UnaryOperator" and b.get("opcode") == "&":
+                v = strip(b["inner"][0])
+                if v.get("kind") == "DeclRefExpr":
+                    w.preserved.add(v["referencedDecl"]["name"])
+        for c in n.get("inner", []):
+            preserved(c)
+    preserved(fn)
     segs, cur = [], None
     for st in body["inner"]:
         names = []
@@ -369,19 +470,22 @@ def ends_stopped(items):
             return True
         if it[0] == "if":
             return ends_stopped(it[1]) and ends_stopped(it[2])
-        return False
+        return False                          # loops (zero iterations) and nested switches (no case taken) can fall through
     return False
 
 
 # ------------------------------------------------------------------------------------------ python mirror of the checker
+# abstract state: None (unreachable) | (rel, hi, wp, fe)
+#   rel  STALE | LE (top <= published) | int d (top = published + d)
+#   hi   lower bound of  written_end - top        (slots top .. top+hi-1 are written)
+#   wp   lower bound of  written_end - published  (>= 0: the marker scans only written slots)
+#   fe   None, or upper bound of  fresh_end - top  where fresh_end = 1 + the highest slot into which this opcode has stored
+#        a value that is neither an immediate nor a registered local (None: no such store yet)
 STALE, LE = "stale", "le"
+START = (STALE, 0, 0, None)
 
 
-def join(a, b):
-    if a is None:
-        return b
-    if b is None:
-        return a
+def join_rel(a, b):
     if a == STALE or b == STALE:
         return STALE
     if a == LE or b == LE:
@@ -389,46 +493,128 @@ def join(a, b):
     return a if a == b else (LE if a <= 0 and b <= 0 else STALE)
 
 
+PINF = "inf"     # fe: nothing known (None = no fresh store yet = -infinity)
+
+
+def fmax(a, b):
+    if a == PINF or b == PINF:
+        return PINF
+    return b if a is None else (a if b is None else max(a, b))
+
+
+def fadd(a, d):
+    return a if (a is None or a == PINF) else a + d
+
+
+def join(a, b):
+    if a is None:
+        return b
+    if b is None:
+        return a
+    return (join_rel(a[0], b[0]), min(a[1], b[1]), min(a[2], b[2]), fmax(a[3], b[3]))
+
+
+def safe_rel(r):
+    return r == LE or (r != STALE and r <= 0)
+
+
+def fresh_ok(rel, fe):
+    """no freshly stored slot at or above the published top"""
+    if fe is None:
+        return True
+    if fe == PINF:
+        return False
+    if rel == LE:
+        return fe <= 0
+    return rel != STALE and rel + fe <= 0
+
+
 def run_items(items, st, bad):
-    """st: None (unreachable) | STALE | LE (top <= published) | int d (top = published + d).  returns the fall-through state"""
+    """returns (fall-through state, join of the states at IBreak); appends (callee or exit, why, state) to bad"""
+    brk = None
     for it in items:
         if st is None:
-            return None
+            return None, brk
         k = it[0]
+        rel, hi, wp, fe = st
         if k == "pub":
-            st = -it[1]
+            st = (-it[1], hi, hi - it[1], fe)
         elif k == "pubunknown":
-            st = STALE
+            bad.append(("(publish)", "the published top is set to something that is not top + constant", st))
+            st = (STALE, hi, wp, fe)
         elif k == "reload":
-            st = 0
+            st = (0, wp, wp, fadd(fe, rel) if isinstance(rel, int) else (fe if rel == LE or fe is None else PINF))
         elif k == "top":
-            st = st if st in (STALE, LE) and it[1] <= 0 or st == STALE else (STALE if st == LE else st + it[1])
+            d = it[1]
+            nrel = STALE if rel == STALE else ((LE if d <= 0 else STALE) if rel == LE else rel + d)
+            st = (nrel, hi - d, wp, fadd(fe, -d))
         elif k == "topdown":
-            st = STALE if st == STALE else (LE if (st == LE or st <= 0) else STALE)
+            st = (STALE if rel == STALE else (LE if safe_rel(rel) else STALE), hi, wp, None if fe is None else PINF)
         elif k == "topunknown":
-            st = STALE
+            st = (STALE, 0, wp, None)
+        elif k == "store":
+            nhi = hi + 1 if it[1] == hi else hi
+            nfe = fe if it[2] else fmax(fe, it[1] + 1)
+            st = (rel, nhi, max(wp, nhi + rel) if isinstance(rel, int) else wp, nfe)
         elif k == "call":
-            if st == STALE or (st != LE and st > 0):
-                bad.append((it[1], st))
+            if not safe_rel(rel):
+                bad.append((it[1], "lost", st))
+            elif wp < 0:
+                bad.append((it[1], "stale", st))
+            elif not fresh_ok(rel, fe):
+                bad.append((it[1], "lost-store", st))
         elif k == "if":
-            st = join(run_items(it[1], st, bad), run_items(it[2], st, bad))
+            fa, ba = run_items(it[1], st, bad)
+            fb, bb = run_items(it[2], st, bad)
+            st, brk = join(fa, fb), join(brk, join(ba, bb))
+        elif k == "block":
+            f, bk = run_items(it[1], st, bad)
+            st = join(f, bk)
         elif k == "loop":
-            inv = st
-            for _ in range(8):
-                out = run_items([x for x in it[1]], inv, [])
-                new = join(inv, out)
-                if new == inv:
-                    break
-                inv = new
-            else:
-                inv = STALE
+            def rnd(inv):
+                f, bk = run_items(it[1], inv, [])
+                return join(inv, join(f, bk))
+            inv = rnd(rnd(rnd(st)))
+            if rnd(inv) != inv:                  # widen the fresh end, one more round
+                inv = rnd((inv[0], inv[1], inv[2], PINF))
+            if rnd(inv) != inv:
+                bad.append(("(loop)", "no stable loop invariant after 3 rounds", inv))
             run_items(it[1], inv, bad)
             st = inv
-        elif k in ("stop", "loopbreak"):
-            return None if k == "stop" else st      # a loop break leaves the loop: state joins the invariant (over-approximated: loop exit = inv)
+        elif k == "stop":
+            if hi < 0 or wp < 0:
+                bad.append(("(exit)", "exit", st))
+            return None, brk
+        elif k == "loopbreak":
+            return None, join(brk, st)
         else:
             raise Unsupported("item " + k)
-    return st
+    return st, brk
+
+
+def check_segment(items):
+    bad = []
+    f, bk = run_items(items, START, bad)
+    for st in (f, bk):
+        if st is not None and (st[1] < 0 or st[2] < 0):
+            bad.append(("(exit)", "exit", st))
+    return bad
+
+
+def why_text(b):
+    callee, why, st = b
+    rel, hi, wp, fe = st
+    if why == "lost-store":
+        return "%s is reached while a slot into which this opcode stored a heap value (neither an immediate nor a registered local) lies at or above the published top (fresh end - local top <= %s, local top %s published top): a collection there does not scan it (LOST root)" % (
+            callee, fe, ("= %+d +" % rel) if isinstance(rel, int) else "<=")
+    if why == "lost":
+        return "%s is reached with the local stack top not known to be <= the published top (relation %s): a collection there does not scan the newest stack slots (LOST root)" % (callee, rel)
+    if why == "stale":
+        return "%s is reached with the published top %d slot(s) above the end of the slots written by this opcode (local top %s published, %d slot(s) written at or above it): a collection there marks a word left by an earlier frame (STALE root)" % (
+            callee, -wp, ("= %+d relative to the" % rel) if isinstance(rel, int) else "<= the", hi)
+    if why == "exit":
+        return "the opcode can end with an unwritten slot below the local top (written end - top >= %d) or below the published top (written end - published >= %d): the next opcode would scan / use it" % (hi, wp)
+    return "%s: %s" % (callee, why)
 
 
 # ------------------------------------------------------------------------------------------ Coq output
@@ -454,6 +640,10 @@ def coq_items(items):
             out.append("IIf (%s) (%s)" % (coq_items(it[1]), coq_items(it[2])))
         elif k == "loop":
             out.append("ILoop (%s)" % coq_items(it[1]))
+        elif k == "store":
+            out.append("IStore (%d) %s" % (it[1], "true" if it[2] else "false"))
+        elif k == "block":
+            out.append("IBlock (%s)" % coq_items(it[1]))
         elif k == "stop":
             out.append("IStop")
         elif k == "loopbreak":
@@ -468,8 +658,20 @@ def count_calls(items):
             n += 1
         elif it[0] == "if":
             n += count_calls(it[1]) + count_calls(it[2])
-        elif it[0] == "loop":
+        elif it[0] in ("loop", "block"):
             n += count_calls(it[1])
+    return n
+
+
+def count_kind(items, kind):
+    n = 0
+    for it in items:
+        if it[0] == kind:
+            n += 1
+        elif it[0] == "if":
+            n += count_kind(it[1], kind) + count_kind(it[2], kind)
+        elif it[0] in ("loop", "block"):
+            n += count_kind(it[1], kind)
     return n
 
 
@@ -506,9 +708,8 @@ def regen(ctx, d):
     ctx.gen("C02_VmTop", "\n".join(lines) + "\n")
     res = []
     for s in full:
-        bad = []
-        run_items(s["items"], STALE, bad)
-        res.append(dict(names=s["names"], calls=count_calls(s["own"]), bad=bad))
+        bad = check_segment(s["items"])
+        res.append(dict(names=s["names"], calls=count_calls(s["own"]), bad=bad, stores=count_kind(s["own"], "store")))
     return dict(segments=res, assumptions=sorted(set(w.assumptions)), external=sorted(w.unknown_callees), may_allocate=len(alloc))
 
 
@@ -517,10 +718,11 @@ if __name__ == "__main__":
     full, w, alloc = analyse(sys.argv[1], sys.argv[2])
     nbad = 0
     for s in full:
-        bad = []
-        run_items(s["items"], STALE, bad)
+        bad = check_segment(s["items"])
         nc = count_calls(s["own"])
         if bad or "-v" in sys.argv:
-            print("/".join(s["names"]), "calls=%d" % nc, "BAD %s" % bad if bad else "ok")
+            print("/".join(s["names"]), "calls=%d" % nc, "BAD %s" % [(b[0], b[1], b[2]) for b in bad] if bad else "ok")
+            if "-vv" in sys.argv:
+                print("    ", coq_items(s["items"]))
             nbad += bool(bad)
     print(len(full), "segments,", sum(1 for s in full if count_calls(s["own"])), "with allocating calls,", nbad, "bad;", "assumptions:", sorted(set(w.assumptions)), "external:", sorted(w.unknown_callees))
